@@ -12,7 +12,8 @@ import types
 from ..lib import coqlit as L
 
 IMPORTS = ("From LV Require Import Common.Cases GainLoss.RoseTree GainLoss.Replay GainLoss.GetGls "
-           "GainLoss.Parsimony GainLoss.GetGLSr GainLoss.TopDown GainLoss.PhyBoGlue GainLoss.GainLossExec.")
+           "GainLoss.Parsimony GainLoss.GetGLSr GainLoss.TopDown GainLoss.PhyBoGlue GainLoss.PhyBoRows "
+           "GainLoss.GainLossExec.")
 
 WEIGHTS = [(1, 1), (2, 1), (1, 2), (3, 2), (2, 3), (1, 3), (5, 1), (3, 1),
            # large and non-commensurable pairs (the model is exact over Z): partial weights on both sides of
@@ -598,13 +599,14 @@ def run_phybo(case):
             from lingpy.thirdparty import cogent as cg
             tree_read = rb(cg.LoadTree(treestring=phybo_newick(t, style)))
             taxa = [name_id(x) for x in phy.taxa]
-            derived = derive_patterns(case["rows"], taxa)
-            observed, coded_ok = {}, {}
-            for cog in phy.cogs:
-                if str(cog) not in derived:
-                    raise AssertionError("PhyBo has a cognate set %r that no row of the wordlist supports" % (cog,))
-                observed[cog] = derived[str(cog)]                   # what a scenario must reproduce
-                coded_ok[cog] = list(phy.paps[cog]) == observed[cog]  # get_paps coded the rows as 1/0/-1
+            # key "<cogid>:<glid>" -> (cognate id, concept number); glid = rank of the concept name
+            concepts = sorted({"c%d" % r[2] for r in case["rows"]})
+
+            def key_ids(cog):
+                cid, glid = str(cog).split(":")
+                return int(cid), int(concepts[int(glid) - 1][1:])
+
+            paps0 = {cog: [int(x) for x in phy.paps[cog]] for cog in phy.cogs}   # as first built by get_paps
             calls = case.get("calls") or [(m, case[m]) for m in ("weighted", "restriction", "topdown")]
             seen_topdown = False
             for mode, cfg in calls:
@@ -634,10 +636,11 @@ def run_phybo(case):
                     gls, noo = phy.gls[glm][cog]
                     if noo != sum(e for _, e in gls):
                         raise AssertionError("number of origins is not the number of gains")
-                    items.append({"mode": mode, "cfg": dict(cfg), "cog": str(cog), "paps": before[cog],
-                                  "obs": observed[cog], "coded_ok": coded_ok[cog], "exact": exact,
+                    items.append({"mode": mode, "cfg": dict(cfg), "cog": str(cog), "ids": key_ids(cog),
+                                  "paps": before[cog], "paps0": paps0[cog], "exact": exact,
                                   "out": [(name_id(a), int(b)) for a, b in gls]})
-        return {"tree": tree_read, "taxa": taxa, "items": items, "out": [x for it in items for x in it["out"]]}
+        return {"tree": tree_read, "taxa": taxa, "items": items, "cogs": [key_ids(cog) for cog in phy.cogs],
+                "out": [x for it in items for x in it["out"]]}
     finally:
         logging.disable(logging.NOTSET)
         shutil.rmtree(d, ignore_errors=True)
@@ -715,9 +718,11 @@ def render_phybo(case, res):
         else:
             m = "(GTopDown %s)" % L.z(cfg["r"])
         items.append(L.record("phybo_item", [
-            m, L.z(cfg.get("gpl", 1)), L.b(cfg.get("push", True)), L.z(cfg["md"]), L.zlist(it["paps"]),
-            L.zlist(it["obs"]), L.b(it["coded_ok"]), L.b(it["exact"]), story_lit(it["out"])]))
-    return L.record("phybo_case", [tree_lit(res["tree"]), L.zlist(res["taxa"]), L.lst(items)])
+            m, L.z(cfg.get("gpl", 1)), L.b(cfg.get("push", True)), L.z(cfg["md"]), L.z(it["ids"][0]),
+            L.z(it["ids"][1]), L.zlist(it["paps0"]), L.zlist(it["paps"]), L.b(it["exact"]), story_lit(it["out"])]))
+    rows = L.lst([L.pair(L.pair(L.z(lang), L.z(con)), L.z(cog)) for _, lang, con, cog in case["rows"]])
+    return L.record("phybo_case", [tree_lit(res["tree"]), L.zlist(res["taxa"]), rows, L.b(case["singletons"]),
+                                   L.lst([L.pair(L.z(a), L.z(b)) for a, b in res["cogs"]]), L.lst(items)])
 
 
 # ----------------------------------------------------------------------------
@@ -745,7 +750,8 @@ BITS = {0: "correspondence: model output differs from implementation output",
         5: "exhaustive enumeration of labellings disagrees with the dynamic programme",
         6: "some node carries both a gain and a loss event",
         7: "PhyBo: a pattern does not have one entry per taxon",
-        8: "PhyBo: the pattern get_paps stored differs from the presence/absence/missing derived from the rows"}
+        8: "PhyBo: the pattern get_paps stored differs from the model's coding of the rows (paps_of_rows)",
+        9: "PhyBo: phy.cogs is not the set of (non-singleton) cognate sets of the rows"}
 
 
 def nontrivial(case, res):
